@@ -179,7 +179,10 @@ func isolate(fn, mode string, args []string) bool {
 // (see isolate.go).
 var isolateRules = map[string]func(mode string, args []string, has func(...string) bool) bool{}
 
+// childDeadline: see helperDeadline (helper.go) - the child's own processor time decides, not the wall.
 const childDeadline = 5 * time.Second
+const childCPU = 3 * time.Second
+const childWallMax = 60 * time.Second
 
 // runChild executes the spec in a fresh process under a 3 GiB address-space
 // limit and returns its result, or a failure describing how it died.
@@ -209,9 +212,7 @@ func runChild(spec, sigPrefix, what string) (res engine.Result) {
 	}
 	done := make(chan error, 1)
 	go func() { done <- cmd.Wait() }()
-	select {
-	case <-done:
-	case <-time.After(childDeadline):
+	if _, back := engine.WaitBounded(cmd.Process.Pid, done, childDeadline, childCPU, childWallMax, func() { res.Hit("child-wait-extended") }); !back {
 		_ = cmd.Process.Kill()
 		<-done
 		res.Fail(sigPrefix+" kind=unbounded", fmt.Sprintf("%s => no outcome within %s in a process of its own (3 GiB address space)", what, childDeadline))
